@@ -60,7 +60,7 @@ def assigned_names(st):
         elif isinstance(n, ast.For):
             tg = [n.target]
         for t in tg:
-            for m in ast.walk(t):
+            for m in ([t] if not isinstance(t, (ast.Tuple, ast.List)) else t.elts):
                 if isinstance(m, ast.Name):
                     names.add(m.id)
     return names
@@ -70,3 +70,399 @@ def loop_signature(st):
     if isinstance(st, ast.For):
         return f"for {ast.unparse(st.target)} in {ast.unparse(st.iter)}"
     return f"while {ast.unparse(st.test)}"
+
+
+# ===================================================================================== merge-mode `if`
+def merge_if(interp, st, c, env):
+    """`if` on a symbolic condition inside a merge-mode evaluation: run both arms and merge what they assign."""
+    from .interp import MergeAbort
+    c = z3.simplify(c)
+    t = interp.feasible(c)
+    f = interp.feasible(z3.Not(c))
+    if t and not f:
+        return interp.exec_block(st.body, env)
+    if f and not t:
+        return interp.exec_block(st.orelse, env)
+    if not t and not f:
+        raise MergeAbort("infeasible")
+    targets = merge_targets(interp, st, env)
+    snap = read_targets(interp, targets, env)
+    results = []
+    for cond, block in ((c, st.body), (z3.Not(c), st.orelse)):
+        write_targets(interp, targets, snap, env)
+        interp.solver.push()
+        nh = len(interp.hyps)
+        try:
+            interp.assume(cond)
+            interp.exec_block(block, env)
+            results.append(read_targets(interp, targets, env))
+        finally:
+            del interp.hyps[nh:]
+            del interp.hyp_tags[nh:]
+            interp.solver.pop()
+    merged = {}
+    for key in targets:
+        v1, v2 = results[0].get(key, Undefined), results[1].get(key, Undefined)
+        merged[key] = merge_values(c, v1, v2)
+    write_targets(interp, targets, merged, env)
+
+
+def merge_values(c, v1, v2):
+    from .interp import MergeAbort
+    if v1 is v2:
+        return v1
+    if v1 is Undefined or v2 is Undefined:
+        return Undefined('assigned in one arm only')
+    if isinstance(v1, Undefined) or isinstance(v2, Undefined):
+        return Undefined('assigned in one arm only')
+    if is_num(v1) and is_num(v2):
+        if is_conc_num(v1) and is_conc_num(v2) and v1 == v2:
+            return v1
+        return z3.If(c, real(v1), real(v2))
+    if (isinstance(v1, bool) or is_symbool(v1)) and (isinstance(v2, bool) or is_symbool(v2)):
+        return z3.If(c, boolz(v1), boolz(v2))
+    if isinstance(v1, str) and isinstance(v2, str):
+        return v1 if v1 == v2 else IteV(c, v1, v2)
+    if isinstance(v1, SubV) and isinstance(v2, SubV) and v1 == v2:
+        return v1
+    raise MergeAbort(f"cannot merge {type(v1).__name__} / {type(v2).__name__}")
+
+
+def merge_targets(interp, st, env):
+    """Assignment targets (names and attribute paths) inside a statement, as unparsed strings -> ast node."""
+    tg = {}
+    for n in ast.walk(st):
+        ts = []
+        if isinstance(n, ast.Assign):
+            ts = n.targets
+        elif isinstance(n, (ast.AugAssign, ast.AnnAssign)):
+            ts = [n.target]
+        elif isinstance(n, ast.For):
+            ts = [n.target]
+        for t in ts:
+            for m in ([t] if not isinstance(t, (ast.Tuple, ast.List)) else t.elts):
+                if isinstance(m, (ast.Name, ast.Attribute)):
+                    tg[ast.unparse(m)] = m
+                else:
+                    from .interp import MergeAbort
+                    raise MergeAbort(f"unsupported assignment target in merge mode: {ast.unparse(m)}")
+    return tg
+
+
+def read_targets(interp, targets, env):
+    out = {}
+    for key, node in targets.items():
+        if isinstance(node, ast.Name):
+            out[key] = env.lookup(node.id) if env.has(node.id) else Undefined
+        else:
+            o = interp.ev(node.value, env)
+            try:
+                out[key] = interp.getattr(o, node.attr, node)
+            except Raised:
+                out[key] = Undefined
+    return out
+
+
+def write_targets(interp, targets, values, env):
+    from . import builtins_ as B
+    for key, node in targets.items():
+        v = values.get(key, Undefined)
+        if v is Undefined:
+            continue
+        if isinstance(node, ast.Name):
+            env.set(node.id, v)
+        else:
+            o = interp.ev(node.value, env)
+            if isinstance(o, Obj):
+                o.fields[node.attr] = v
+            else:
+                B.setattr_(interp, o, node.attr, v, node)
+
+
+# ===================================================================================== loops over a symbolic contents map
+class LoopCtx:
+    """What a loop invariant may talk about."""
+
+    def __init__(self, interp, env, view, key, idx, n, pre):
+        self.I = interp
+        self.env = env
+        self.view = view
+        self.m = view.m
+        self.key, self.idx, self.n = key, idx, n
+        self.pre = pre            # snapshot at loop entry: name -> value; ('obj', id) -> dict of fields
+        self.amt0, self.mem0 = pre['__iter_amt'], pre['__iter_mem']
+
+    def var(self, name):
+        return self.env.lookup(name)
+
+    def pre_field(self, obj, field):
+        return self.pre[('obj', id(obj))][field]
+
+
+def accum_shape(body):
+    """Is the loop body a pure accumulation (temps + `acc += expr`, possibly under if/else)?  Returns the
+    accumulator target nodes or None."""
+    accs = {}
+
+    def ok(stmts):
+        for s in stmts:
+            if isinstance(s, ast.Assign):
+                if not all(isinstance(t, ast.Name) for t in s.targets):
+                    return False
+            elif isinstance(s, ast.AugAssign):
+                if not isinstance(s.op, ast.Add) or not isinstance(s.target, (ast.Name, ast.Attribute)):
+                    return False
+                accs[ast.unparse(s.target)] = s.target
+            elif isinstance(s, ast.If):
+                if not ok(s.body) or not ok(s.orelse):
+                    return False
+            elif isinstance(s, ast.Expr) and isinstance(s.value, ast.Constant):
+                continue
+            elif isinstance(s, ast.Pass):
+                continue
+            else:
+                return False
+        return True
+    if not ok(body) or not accs:
+        return None
+    # accumulators must not be assigned plainly nor read elsewhere
+    names = set(accs)
+    for n in ast.walk(ast.Module(body=body, type_ignores=[])):
+        if isinstance(n, ast.Assign):
+            for t in n.targets:
+                if ast.unparse(t) in names:
+                    return None
+    return accs
+
+
+def try_accumulate(interp, st, env, view):
+    """Summarise `for x, a in m.items(): acc += T(x, a)` exactly as acc += sum (T2), T recognised as a canonical
+    weighted sum where possible.  Returns True if the loop was handled."""
+    from .interp import MergeAbort, Env
+    from . import symcoll
+    if st.orelse:
+        return False
+    accs = accum_shape(st.body)
+    if not accs:
+        return False
+    m = view.m
+    x = fresh('x', Sub)
+    a = fresh('a', RS)
+    # current accumulator values, and placeholders
+    cur = read_targets(interp, accs, env)
+    if any(not is_num(v) for v in cur.values()):
+        return False
+    place = {k: fresh('acc', RS) for k in accs}
+    saved_writes = len(interp.writes)
+    deltas = None
+    temps_before = dict(env.vars)
+    interp.solver.push()
+    nh = len(interp.hyps)
+    interp.pure += 1
+    try:
+        interp.assume(m.mem[x])
+        interp.assume(symcoll.sub_wf_term(x))
+        interp.assume(a == m.amt[x])
+        write_targets(interp, accs, place, env)
+        view.bind_generic(interp, st.target, env, x, a)
+        interp.exec_block(st.body, env)
+        after = read_targets(interp, accs, env)
+        deltas = {}
+        for k in accs:
+            d = z3.simplify(real(after[k]) - place[k])
+            if any(place[j].eq(c) for j in accs for c in consts_of(d)):
+                raise MergeAbort("accumulator is read by the loop body")
+            deltas[k] = z3.substitute(d, (m.amt[x], a))
+    except (MergeAbort, Raised, BreakEx, ContinueEx, ReturnEx):
+        deltas = None
+    finally:
+        interp.pure -= 1
+        del interp.hyps[nh:]
+        del interp.hyp_tags[nh:]
+        interp.solver.pop()
+    if deltas is None or len(interp.writes) != saved_writes:
+        write_targets(interp, accs, cur, env)
+        del interp.writes[saved_writes:]
+        return False
+    final = {}
+    for k in accs:
+        final[k] = real(cur[k]) + symcoll.recognise_sum(interp, deltas[k], x, a, m)
+    write_targets(interp, accs, final, env)
+    # loop-local temporaries keep their last value in Python; here they are unknown afterwards
+    for name in assigned_names(st):
+        if name not in accs:
+            env.vars[name] = Undefined(f"{name} (assigned in a summarised loop)")
+    return True
+
+
+def consts_of(term):
+    out, seen, stack = [], set(), [term]
+    while stack:
+        t = stack.pop()
+        if t.get_id() in seen:
+            continue
+        seen.add(t.get_id())
+        if z3.is_const(t) and t.decl().kind() == z3.Z3_OP_UNINTERPRETED:
+            out.append(t)
+        stack.extend(t.children())
+    return out
+
+
+def loop_over_map(interp, st, env, view):
+    """for <target> in m.items()/keys()/values() over a contents map of arbitrary size."""
+    if interp.pure:
+        from .interp import MergeAbort
+        raise MergeAbort("nested loop over a symbolic map in merge mode")
+    if try_accumulate(interp, st, env, view):
+        return
+    sig = loop_signature(st) + ' -> ' + ','.join(sorted(assigned_targets(st)))
+    inv = interp.loop_invariants.get(sig) or interp.loop_invariants.get(loop_signature(st))
+    m = view.m
+    key, idx, n = m.enum(interp)
+    pre = snapshot(interp, st, env)
+    pre['__iter_amt'], pre['__iter_mem'] = m.amt, m.mem
+    ctx = LoopCtx(interp, env, view, key, idx, n, pre)
+    name = f"inv[{loop_signature(st)}@{interp.call_stack[-1] if interp.call_stack else '?'}]"
+    if inv is not None:
+        interp.oblige(name + '.init', inv(ctx, z3.IntVal(0)), 'aux', lineno=st.lineno)
+    else:
+        interp.notes.append(f"loop without invariant (havoc only): {sig} at line {st.lineno}")
+    choice = interp.choose(2, f"loop@{st.lineno} iteration/exit")
+    havoc(interp, st, env)
+    if choice == 0:
+        k = fresh('k', IS)
+        interp.assume(z3.And(k >= 0, k < n))
+        if inv is not None:
+            interp.assume(inv(ctx, k))
+        cur = key(k)
+        interp.assume(m.mem[cur])
+        from . import symcoll
+        interp.assume(symcoll.sub_wf_term(cur))
+        view.bind_generic(interp, st.target, env, cur, view.m.amt[cur])
+        mem_before = view.m.mem
+        try:
+            interp.exec_block(st.body, env)
+        except ContinueEx:
+            pass
+        except BreakEx:
+            raise Unsupported("break inside a loop over a symbolic map")
+        if inv is not None:
+            interp.oblige(name + '.step', inv(ctx, k + 1), 'aux', lineno=st.lineno)
+        x = z3.Const('x!rs', Sub)
+        interp.oblige(name + '.no-resize', z3.ForAll([x], view.m.mem[x] == mem_before[x]), 'aux', lineno=st.lineno)
+        raise PathEnd()
+    if inv is not None:
+        interp.assume(inv(ctx, n))
+    post = interp.__dict__.get('loop_post', {}).get(sig)
+    if post is not None:
+        post(ctx)
+    interp.exec_block(st.orelse, env)
+
+
+def assigned_targets(st):
+    out = set()
+    for n in ast.walk(st):
+        ts = []
+        if isinstance(n, ast.Assign):
+            ts = n.targets
+        elif isinstance(n, (ast.AugAssign, ast.AnnAssign)):
+            ts = [n.target]
+        for t in ts:
+            for m in ([t] if not isinstance(t, (ast.Tuple, ast.List)) else t.elts):
+                out.add(ast.unparse(m))
+    return out
+
+
+def snapshot(interp, st, env):
+    """Values, at loop entry, of everything the invariant may need: all local names; for objects: a copy of fields
+    (contents maps as (amt, mem) pairs)."""
+    from .symcoll import SymMap
+    pre = {}
+    e = env
+    seen = set()
+    while e is not None and e.parent is not None:
+        for k, v in e.vars.items():
+            if k in seen:
+                continue
+            seen.add(k)
+            pre[k] = v
+            if isinstance(v, Obj):
+                d = {}
+                for f, fv in v.fields.items():
+                    d[f] = (fv.amt, fv.mem) if isinstance(fv, SymMap) else fv
+                pre[('obj', id(v))] = d
+        e = e.parent
+    return pre
+
+
+def havoc(interp, st, env):
+    """Forget everything the loop body may assign (sort-preserving fresh values)."""
+    from .symcoll import SymMap
+    for n in ast.walk(st):
+        tgs = []
+        if isinstance(n, ast.Assign):
+            tgs = n.targets
+        elif isinstance(n, (ast.AugAssign, ast.AnnAssign)):
+            tgs = [n.target]
+        elif isinstance(n, ast.For) and n is not st:
+            tgs = [n.target]
+        elif isinstance(n, ast.Call) and isinstance(n.func, ast.Attribute) and n.func.attr in (
+                'append', 'extend', 'add', 'update', 'pop', 'insert') and isinstance(n.func.value, ast.Name):
+            nm = n.func.value.id
+            if env.has(nm) and isinstance(env.lookup(nm), (list, dict)):
+                env.set(nm, Opaque(f'{nm} (mutated in a cut loop)'))
+            continue
+        for t in tgs:
+            for m in ([t] if not isinstance(t, (ast.Tuple, ast.List)) else t.elts):
+                havoc_target(interp, m, env)
+
+
+def havoc_value(v, hint):
+    from .symcoll import SymMap
+    if is_symnum(v):
+        return fresh(hint, v.sort())
+    if is_conc_num(v) and not isinstance(v, bool):
+        return fresh(hint, IS if isinstance(v, int) else RS)
+    if is_symbool(v) or isinstance(v, bool):
+        return fresh(hint, BS)
+    if isinstance(v, (str, SegStr)):
+        return SegStr([OpaqueHole(hint)])
+    if isinstance(v, (list, dict)):
+        return Opaque(hint)
+    return None
+
+
+def havoc_target(interp, t, env):
+    from .symcoll import SymMap
+    if isinstance(t, ast.Name):
+        if env.has(t.id):
+            nv = havoc_value(env.lookup(t.id), t.id)
+            env.set(t.id, nv if nv is not None else Undefined(f"{t.id} (assigned in a cut loop)"))
+        else:
+            env.set(t.id, Undefined(f"{t.id} (assigned in a cut loop)"))
+    elif isinstance(t, ast.Attribute):
+        try:
+            o = interp.ev(t.value, env)
+        except (Raised, Unsupported):
+            return
+        if isinstance(o, Obj) and t.attr in o.fields:
+            nv = havoc_value(o.fields[t.attr], t.attr)
+            if nv is None:
+                raise Unsupported(f"cannot havoc field {t.attr}")
+            o.fields[t.attr] = nv
+    elif isinstance(t, ast.Subscript):
+        try:
+            o = interp.ev(t.value, env)
+        except (Raised, Unsupported):
+            return
+        if isinstance(o, SymMap):
+            o.amt = fresh('amt', o.amt.sort())
+            o.mem = fresh('mem', o.mem.sort())
+        elif isinstance(o, (list, dict)):
+            # a concrete collection mutated in a cut loop: forget it
+            if isinstance(t.value, ast.Name):
+                env.set(t.value.id, Opaque(f'{t.value.id} (mutated in a cut loop)'))
+        elif isinstance(o, Opaque):
+            pass
+        else:
+            raise Unsupported(f"cannot havoc subscript store on {type(o).__name__}")
